@@ -420,6 +420,55 @@ theorem C04_enclosure : C04_enclosure_full := by
     trigonometric facts tying `(c, s, cl, sl, cw, sw)` to angles (`cos`, `sin`, `arctan`, `min`, monotonicity of sine on
     [0, π/2]). These are validated by sampling admissible poses in the harness (a test, not a theorem). -/
 
+/-! ### the occupancy set of a trajectory prediction, entry by entry
+  `predOccAt (.traj _ ts)` scans the time steps of the states; the code scans the occupancy set `_create_occupancy_set` built
+  (T04 `tie_create_occupancy_set` / `tie_occSetOf`: entry `i` = (time step of state `i`, shape placed at state `i`)) with
+  `Prediction.occupancy_at_time_step` (T04 `tie_prediction_occupancy`).  The two agree for EVERY list of time steps. -/
+
+theorem findIdx_occSetFrom (t : Int) : ∀ (ts : List Int) (i k : Nat),
+    findIdx (fun e : TS × Occ => e.1.contains t) (occSetFrom ts i) k = findIdx (fun s => s == t) ts k
+  | [], _, _ => rfl
+  | a :: r, i, k => by
+    have ih := findIdx_occSetFrom t r (i + 1) (k + 1)
+    simp only [occSetFrom, findIdx]
+    rw [ih]
+    rfl
+
+theorem occSetFrom_getElem? : ∀ (ts : List Int) (i j : Nat),
+    (occSetFrom ts i)[j]? = ts[j]?.map (fun t => (TS.step t, Occ.placed (i + j)))
+  | [], _, _ => by simp [occSetFrom]
+  | a :: r, i, 0 => by simp [occSetFrom]
+  | a :: r, i, j + 1 => by
+    simp only [occSetFrom, List.getElem?_cons_succ]
+    rw [occSetFrom_getElem? r (i + 1) j]
+    congr 1; funext t; congr 2; omega
+
+/-- Looking `t` up in the occupancy set of a trajectory prediction gives the shape placed at the FIRST state whose own time
+    step is `t` — `predOccAt`; no entry is skipped, shifted or paired with another state's time step. -/
+theorem C04_occset_lookup (t0 : Int) (ts : List Int) (t : Int) :
+    lookupOcc (occSetOf ts) t = predOccAt (.traj t0 ts) t := by
+  simp only [lookupOcc, predOccAt, occSetOf]
+  rw [findIdx_occSetFrom]
+  cases h : findIdx (fun s => s == t) ts 0 with
+  | none => rfl
+  | some r =>
+    obtain ⟨i, hr, hi, _, _⟩ := (findIdx_spec _ ts 0 r).1 h
+    have hri : r = i := by omega
+    subst hri
+    simp [occSetFrom_getElem?, List.getElem?_eq_getElem hi]
+
+example : lookupOcc (occSetOf [3, 4, 5]) 4 = some (.placed 1) := by decide
+
+/-- `Scenario.obstacle_by_id` (model `Scn.byId`, tied to the source in T04): the obstacle found carries the id and is a member;
+    an id no obstacle carries gives `none`. -/
+theorem C04_scn_byId (s : Scn) (i : Nat) :
+    (∀ x, s.byId i = some x → x.1 = i ∧ x ∈ s.obstacles) ∧ (s.byId i = none ↔ ∀ x ∈ s.obstacles, x.1 ≠ i) := by
+  unfold Scn.byId
+  constructor
+  · intro x hx
+    exact ⟨by simpa using List.find?_some hx, List.mem_of_find?_eq_some hx⟩
+  · simp [List.find?_eq_none]
+
 /-! ### non-vacuity -/
 
 example : WfTraj 3 [3, 4, 5] := by
